@@ -2,5 +2,5 @@
 From Coq Require Import Extraction ExtrOcamlBasic.
 From Cicada Require Import Model.OsLite Model.Pipeline.
 Extraction Language OCaml.
-Extraction "fds_model.ml" run_pipeline known_here known_dupleak known_capredir out_of_scope
+Extraction "fds_model.ml" run_pipeline known_dupleak known_capredir known_capdup lookahead_leak is_single_builtin out_of_scope
   posix_sinks posix_opens std_in std_out std_err lookup.
